@@ -47,12 +47,30 @@ class _ChildTime:
     def __init__(self, io):
         self.now = 0.0
         self.io = io
+        self.fork_in_sleep = None       # path of the helper-pid file: fork a long-lived child during the first sleep
 
     def time(self):
         return self.now
 
     def sleep(self, d):
         self.now += max(d, 0.0)
+        if self.fork_in_sleep:
+            # The application forks (a worker, a daemonised helper ...) while the library is merely waiting between two
+            # polls.  The child inherits whatever the process has open at this instant and lives on.
+            hp, self.fork_in_sleep = self.fork_in_sleep, None
+            sys.settrace(None)
+            pid = os.fork()
+            if pid == 0:
+                try:
+                    os.close(self.io.rfd)
+                    os.close(self.io.wfd)
+                    while True:
+                        signal.pause()
+                finally:
+                    os._exit(0)
+            with open(hp, 'a') as f:
+                f.write(f'{pid}\n')
+            sys.settrace(self.retrace)
         self.io.report(b'S')
 
 
@@ -118,6 +136,9 @@ def child_main(script, path, marker, rfd, wfd, close_fds, inherited=None):
                 return ltrace
             return None
 
+        if script.get('fork_in_sleep'):
+            ct.fork_in_sleep = path + '.helper'
+            ct.retrace = gtrace
         if script.get('inherit') and inherited is not None:
             lock = inherited        # a FileLock object the parent created and already used before fork()
             lock.timeout = script.get('ctor_timeout', -1)
@@ -253,6 +274,7 @@ class Child:
         self.last_kind = None
         self.failed = 0
         self.entries = 0
+        self.sleeps = 0
 
 
 class Controller:
@@ -309,6 +331,7 @@ class Controller:
             ch.state = 'blocked'
         elif kind == 'S':
             ch.state = 'parked'
+            ch.sleeps += 1
         elif kind == 'C':
             ch.state = 'parked'
             ch.in_critical = True
@@ -505,6 +528,10 @@ CRASH_SCRIPTS = {
                          'hold_steps': 2, 'inherit': True},
     'daemon_with_helper': {'how': 'acquire', 'mode': 'default', 'reentrant': False, 'nest': 1, 'rounds': 1, 'ctor_timeout': -1,
                            'hold_steps': 2, 'close_stdin': True, 'spawn_helper': True},
+    # a timed acquire that has to wait for another holder; while it sleeps between two polls the application forks a
+    # long-lived child; later it gets the lock and is killed
+    'waiter_forks_between_polls': {'how': 'acquire', 'mode': 'timed', 'timeout': 30.0, 'reentrant': False, 'nest': 1, 'rounds': 1,
+                                   'ctor_timeout': -1, 'hold_steps': 2, 'fork_in_sleep': True, 'pre_holder': True},
 }
 FRESH = {'how': 'acquire', 'mode': 'default', 'reentrant': False, 'nest': 1, 'rounds': 1, 'ctor_timeout': -1, 'hold_steps': 1}
 # the probe that must get the lock after the crash alternates between the blocking and the polling (timed) path
@@ -561,8 +588,25 @@ def execute_crash(prog, sspec):
             pre.release()
             ctl.inherited = pre
             ctl.keepalive = (pre, pre2)
+        pre_holder = None
+        if CRASH_SCRIPTS[prog['script']].get('pre_holder'):
+            pre_holder = ctl.spawn(dict(FRESH, hold_steps=3))
+            n = 0
+            while not pre_holder.in_critical and pre_holder.state in ('parked', 'blocked') and n < 400:
+                ctl.step(pre_holder)
+                n += 1
         victim = ctl.spawn(CRASH_SCRIPTS[prog['script']])
         ctl.inherited = None
+        if pre_holder is not None:
+            # the victim runs into the held lock and sleeps between polls at least once; then the holder finishes
+            n = 0
+            while victim.sleeps < 1 + prog.get('extra_polls', 0) and victim.state in ('parked', 'blocked') and n < 2000:
+                ctl.step(victim)
+                n += 1
+            n = 0
+            while pre_holder.state in ('parked', 'blocked') and n < 400:
+                ctl.step(pre_holder)
+                n += 1
         others = [ctl.spawn(c['script']) for c in prog.get('contenders', ())]
         # park contenders at their seeded positions (they may block on the victim's lock: fine)
         plan = []
